@@ -59,3 +59,8 @@ package protocoltypes
 //@   for C12
 //@   requires m != nil
 //@   ensures result == hexs(bytes(m.PublicKey))
+
+//@ func NewGroupMultiMember
+//@   for C19, C12
+//@   safety
+//@   ensures [C19.newgroup] ret2 == nil ==> ret0 != nil && ret1 != nil && fresh(ret0) && ret0.GroupType == 3 && len(ret0.PublicKey) == 32 && len(ret0.Secret) == 32
